@@ -44,6 +44,8 @@ class Oracle(TokOracle):
                     report("value-differs", words, (cls, payload), ["ok", repr(sres[1])])
                     ex2.solver.pop()
             else:
+                if cls == "stdout" and all(w.form == "dd" for w in words) and getattr(g, "usage_fallback", False):
+                    return  # fallback_to_usage: a line with no item (besides the separator) is answered with the usage text on stdout
                 if cls != "stderr":
                     report("rejects-non-sentence", words, (cls, payload), ["stderr", sres[1]])
         ex.sub_explore(lambda e: G.run_spec(e, env, g.level, items), leaf)
